@@ -27,6 +27,13 @@ def _figure(files, base, extra, out):
         os.remove(out)
     old = sys.stdout
     sys.stdout = io.StringIO()
+    real_savefig = mpl.savefig
+    saved = {}
+
+    def recording_savefig(*a, **kw):
+        saved.update(kw)                  # the resolution the image is written with is savefig's dpi argument
+        return real_savefig(*a, **kw)
+    mpl.savefig = recording_savefig
     try:
         verif.driver.run(["verif"] + files + base + extra + ["-f", out])
         status = "ok"
@@ -36,7 +43,10 @@ def _figure(files, base, extra, out):
         status = exc_site(e) + " " + repr(e)[:120]
     finally:
         sys.stdout = old
-    return status, mpl.gcf()
+        mpl.savefig = real_savefig
+    fig = mpl.gcf()
+    fig._verif_saved_dpi = saved.get("dpi")
+    return status, fig
 
 
 def _log_ticks(ticks):
@@ -85,8 +95,6 @@ def _check_chunk(cases):
         for prop, expected in c["expected"]:
             if restricted and prop not in MULTI_PROPS:
                 continue
-            if prop == "dpi" and any(f in c["flags"] for f in ("-fs", "-left", "-right", "-top", "-bottom", "-nomargin")):
-                continue      # the resolution is measured against the 100-dpi baseline image of the same geometry
             msg = figproj.owned_ok(prop, expected, P, P0)
             if msg:
                 known = (prop == "xticks" and "-xlog" in c["flags"] and _log_ticks(P.get("xticks"))) or \
@@ -94,8 +102,6 @@ def _check_chunk(cases):
                 divs.append(("figure:option:%s%s" % (prop, ":with-log-axis" if known else ""), known, "%s plot with %s: %s" % (plot, " ".join(c["argv"]), msg), rep))
         for prop in c["unchanged"]:
             if restricted and prop not in MULTI_PROPS:
-                continue
-            if prop == "dpi":
                 continue
             if not figproj.same(P.get(prop), P0.get(prop)):
                 divs.append(("figure:interference:%s" % prop, False, "%s plot with %s: %s changed from %r to %r although no given option controls it"
